@@ -50,6 +50,10 @@ struct Case {
     /// what the stand-in service manager answers to `is-active` / `status`: 0 active, 3 activating (auto-restart pending), inactive or failed
     #[serde(default)]
     unit_rc: u8,
+    /// the stand-in answers `stop` / `start` of a unit whose unit file does not exist with exit code 5, as systemd does
+    /// ("Unit ... not loaded"); otherwise every state-changing verb exits 0
+    #[serde(default)]
+    like_systemd: bool,
     /// installed version: None | Some((package it came from, bitmask of files present: exe, cfg, ebpf, unit))
     installed: Option<(Pkg, u8)>,
     backup: Option<(Pkg, u8)>,
@@ -94,9 +98,9 @@ fn strategy() -> impl Strategy<Value = Case> {
                 pre
             }),
         ],
-        (prop::bool::weighted(0.3), prop_oneof![3 => Just(0u8), 2 => Just(3u8)]),
+        (prop::bool::weighted(0.3), prop_oneof![3 => Just(0u8), 2 => Just(3u8)], any::<bool>()),
     )
-        .prop_map(|(installed, backup, package, mut cmds, (same_length, unit_rc))| {
+        .prop_map(|(installed, backup, package, mut cmds, (same_length, unit_rc, like_systemd))| {
             // an upgrade often changes a value, not the size of a file: new packages whose data files have the
             // lengths of the installed ones and other content
             if same_length {
@@ -112,11 +116,11 @@ fn strategy() -> impl Strategy<Value = Case> {
                     }
                 }
             }
-            Case { unit_rc, installed, backup, package, cmds }
+            Case { unit_rc, like_systemd, installed, backup, package, cmds }
         })
 }
 
-const RULE: &str = "generator: initial state = (nothing installed | a version installed with all four files or a subset) x (no backup | a backup, possibly stale or partial) x a package with generated file contents and modes (the executable is a shell script answering --version followed by arbitrary bytes; data files are arbitrary bytes incl. empty), bystander files of other owners next to each of the four system files (e.g. /usr/lib/azure-proxy-agent/package/ProxyAgentExt), then 1-8 commands from {backup, install, restore (the command line always deletes the backup afterwards: its delete_backup value cannot be given), uninstall service, uninstall package, purge, repackage (the package content changes between installs; in 30% of the cases the new data files have the same lengths as the installed ones and other content)}; each command is the REAL setup binary run chroot'ed in an overlay over '/'. oracle: an in-memory model of the four system paths, the backup folder and the package (bytes and modes) compared after every command; the overlay's upper directory is diffed around every command and every changed path must be one of the four system paths, the backup folder or the tool's log; the stand-in systemctl answers queries (is-active, status) as 'active' or as 'activating' (exit 3) by the case; its log of state-changing calls must be the expected sequence, 'stop' seeing the pre-command hashes and 'start' the post-command hashes. non-trivial: sequence containing backup -> install of different content -> restore, or a restore without a backup, or an install over a partially present version; distinct by hash of the case.";
+const RULE: &str = "generator: initial state = (nothing installed | a version installed with all four files or a subset) x (no backup | a backup, possibly stale or partial) x a package with generated file contents and modes (the executable is a shell script answering --version followed by arbitrary bytes; data files are arbitrary bytes incl. empty), bystander files of other owners next to each of the four system files (e.g. /usr/lib/azure-proxy-agent/package/ProxyAgentExt), then 1-8 commands from {backup, install, restore (the command line always deletes the backup afterwards: its delete_backup value cannot be given), uninstall service, uninstall package, purge, repackage (the package content changes between installs; in 30% of the cases the new data files have the same lengths as the installed ones and other content)}; each command is the REAL setup binary run chroot'ed in an overlay over '/'. oracle: an in-memory model of the four system paths, the backup folder and the package (bytes and modes) compared after every command; the overlay's upper directory is diffed around every command and every changed path must be one of the four system paths, the backup folder or the tool's log; the stand-in systemctl answers queries (is-active, status) as 'active' or as 'activating' (exit 3) by the case, and in half of the cases answers stop / start of a unit that has no unit file with exit code 5 as systemd does; its log of state-changing calls must be the expected sequence, 'stop' seeing the pre-command hashes and 'start' the post-command hashes. non-trivial: sequence containing backup -> install of different content -> restore, or a restore without a backup, or an install over a partially present version; distinct by hash of the case.";
 
 fn cstr(s: &str) -> CString {
     CString::new(s).unwrap()
@@ -175,8 +179,8 @@ impl Overlay {
         std::fs::copy(&o.tool, o.path(&format!("{}/proxy_agent_setup", D))).map_err(|e| format!("copy tool: {}", e))?;
         std::fs::create_dir_all(o.path("opt/fakebin")).map_err(|e| e.to_string())?;
         let script = format!(
-            "#!/bin/sh\n{{ echo \"CALL $*\"; for f in /{} /{} /{} /{}; do if [ -f $f ]; then echo \"$(sha256sum < $f | cut -d' ' -f1) $(stat -c %a $f)\"; else echo MISSING; fi; done; }} >> /opt/fakebin/systemctl.log\ncase \"$1\" in is-active|status|is-failed) exit $(cat /opt/fakebin/is_active_rc 2>/dev/null || echo 0);; esac\nexit 0\n",
-            S_EXE, S_CFG, S_EBPF, S_UNIT
+            "#!/bin/sh\n{{ echo \"CALL $*\"; for f in /{} /{} /{} /{}; do if [ -f $f ]; then echo \"$(sha256sum < $f | cut -d' ' -f1) $(stat -c %a $f)\"; else echo MISSING; fi; done; }} >> /opt/fakebin/systemctl.log\ncase \"$1\" in is-active|status|is-failed) exit $(cat /opt/fakebin/is_active_rc 2>/dev/null || echo 0);; stop|start) if [ -f /opt/fakebin/like_systemd ] && [ ! -f /{} ]; then exit 5; fi;; esac\nexit 0\n",
+            S_EXE, S_CFG, S_EBPF, S_UNIT, S_UNIT
         );
         std::fs::write(o.path("opt/fakebin/systemctl"), script).map_err(|e| e.to_string())?;
         std::fs::set_permissions(o.path("opt/fakebin/systemctl"), std::fs::Permissions::from_mode(0o755)).map_err(|e| e.to_string())?;
@@ -368,7 +372,7 @@ fn sha256_hex(b: &[u8]) -> String {
 }
 
 fn allowed_change(path: &str) -> bool {
-    S_PATHS.contains(&path) || path.starts_with(&format!("{}/ProxyAgent/Backup", D)) || path.starts_with(&format!("{}/setup.log", D)) || path == "opt/fakebin/systemctl.log" || path == "opt/fakebin/is_active_rc"
+    S_PATHS.contains(&path) || path.starts_with(&format!("{}/ProxyAgent/Backup", D)) || path.starts_with(&format!("{}/setup.log", D)) || path == "opt/fakebin/systemctl.log" || path == "opt/fakebin/is_active_rc" || path == "opt/fakebin/like_systemd"
 }
 
 fn eval(tool: &Path, case: &Case, stats: &mut Stats) -> Outcome {
@@ -406,6 +410,11 @@ fn eval(tool: &Path, case: &Case, stats: &mut Stats) -> Outcome {
     }
     write_package(&o, &mut m, &case.package);
     let _ = std::fs::write(o.path("opt/fakebin/is_active_rc"), format!("{}\n", case.unit_rc));
+    let _ = std::fs::remove_file(o.path("opt/fakebin/like_systemd"));
+    if case.like_systemd {
+        let _ = std::fs::write(o.path("opt/fakebin/like_systemd"), b"1\n");
+        stats.class("service-manager:stop/start-of-a-unit-without-unit-file-exits-5");
+    }
     // bystanders: other people's files in the folders the tool works in (the distro payload lives under
     // /usr/lib/azure-proxy-agent/package); no command may touch them
     for (rel, content) in [
